@@ -65,6 +65,36 @@ Fixpoint prune (j : json) : json :=
   | _ => j
   end.
 
+(* ---------- what a patch content requests for one path (specification side) ---------- *)
+
+(* the walk of q through the patch falls off at a key the patch does not mention: the patch says nothing about q *)
+Fixpoint untouchedb (p : json) (q : path) {struct q} : bool :=
+  match q with
+  | [] => false
+  | k :: q' =>
+      match p with
+      | JObj kvs => match lookup k kvs with None => true | Some v => untouchedb v q' end
+      | _ => false
+      end
+  end.
+
+(* The non-mapping value the reviewed object must show at path q once the content p is applied:
+   untouched paths keep the object's value; a non-null leaf of the patch is set (overwriting whatever was there, so
+   nothing remains below it); a null deletes (nothing at or below it); a mapping node of the patch is a mapping. *)
+Definition requested (p body : json) (q : path) : option json :=
+  if untouchedb p q then leaf_at body q
+  else match leaf_at p q with Some JNull => None | x => x end.
+
+(* ---------- how handlers fill the Patch (Patch.__setitem__, MutableMappingView.__setitem__) ---------- *)
+
+(* patch[k] = v is ensure [k]; patch.spec[k] = v, patch.status[k] = v, patch.metadata[k] = v are
+   dicts.ensure(patch, (view, k), v); patch.metadata.labels[k] = v is dicts.ensure(patch, ('metadata', 'labels', k), v).
+   A write that raises (TypeError: a non-mapping set earlier is in the way) leaves the content as it was. *)
+Definition apply_write (content : json) (w : path * json) : json :=
+  match ensure content (fst w) (snd w) with Ok c => c | _ => content end.
+
+Definition content_of (writes : list (path * json)) : json := fold_left apply_write writes (JObj []).
+
 (* ---------- transformation functions (patch.fns) ---------- *)
 
 (* User code: arbitrary functions on the body (they mutate it in place in Python). *)
